@@ -320,7 +320,9 @@ Clauses(e) ==
               \cup (IF e.vpost[LenName(e.t)] # want THEN {<<"C04.object-length", "none">>} ELSE {})
          ELSE {}
     [] e.op = "regfactory" ->      \* the tables this run is judged against contain the registration the application made
-         IF Lookup(e.from, e.bytes) = e.t THEN {} ELSE {<<"C12.registration-not-in-tables", "none">>}
+         (IF P("C12") /\ Lookup(e.from, e.bytes) # e.t THEN {<<"C12.registration-not-in-tables", "none">>} ELSE {})
+         \cup (* a registration that does not return after a frame was refused: the decoder left a lock behind (C09: never hangs) *)
+              (IF P("C09") /\ e.res \notin {"ok", "na"} THEN {<<"C09.call-did-not-return", "none">>} ELSE {})
     [] OTHER -> {}
 
 ---------------------------------------------------------------------------
